@@ -334,7 +334,13 @@ def run_world(spec, argv, child_hook=None, warnings=None, probe=True,
     else:
         worldrt.PROBE = None
     saved_fd2 = worldrt.FD2
-    worldrt.FD2 = lambda text: CUR_ERR.write(text)
+    def _fd2(text):
+        if isinstance(text, bytes):
+            CUR_ERR.flush()
+            CUR_ERR.buffer.write(text)
+        else:
+            CUR_ERR.write(text)
+    worldrt.FD2 = _fd2
     R.subprocess = _SubprocessShim()
     R.threading = _ThreadingShim()
     R.time = _TimeShim()
